@@ -15,7 +15,11 @@ CONSTANTS FAMS,       \* writer families explored ("corpus" = the loaded charts)
           FMT,        \* "none" | "all" (every series formatted) | "ends" (none or all) | "prefix" (any prefix 1..k)
           REOPEN,     \* "none" | "end" (SaveReopen only as the last action) | "any"
           RMOD,       \* SaveReopen only when the last shape index is divisible by RMOD
-          CORPUSSEL   \* 0: all corpus charts, n: every n-th (multi-plot charts always)
+          CORPUSSEL,  \* 0: all corpus charts, n: every n-th (multi-plot charts always)
+          HOWS        \* how the chart-data object handed to ReplaceData came to be: "fresh" (built in one go) and/or "staged" (ONE object,
+                      \* rendered into a throw-away chart when half built - the left spine of its category tree and its first series -
+                      \* then completed: sub-categories under nodes that already exist, further categories, points, series).  The abstract
+                      \* step is the same: a chart reports the data the object holds when it is handed over, however it got there.
 VARIABLES chart, hist, nfmt, done
 
 Node(lab, subs) == [lab |-> lab, subs |-> subs]
@@ -76,9 +80,9 @@ DoFormat == /\ Live /\ FMT # "none" /\ NRep = 0 /\ hist[Len(hist)].op \in {"add"
 DoReplace == /\ Live /\ NRep < L
              /\ FMT = "ends" /\ hist[1].op = "add" /\ NRep = 0 => nfmt \in {0, Len(AllSers(chart))}
              /\ FMT = "all" /\ hist[1].op = "add" /\ NRep = 0 => nfmt = Len(AllSers(chart))
-             /\ \E d \in IdsFor(DataKind, IsPie) :
+             /\ \E d \in IdsFor(DataKind, IsPie) : \E how \in HOWS :
                   LET a == [op |-> "replace", data |-> ShapeTab[d]] IN
-                  /\ chart' = ImplStep(chart, a) /\ hist' = Append(hist, [op |-> "replace", d |-> d]) /\ UNCHANGED <<nfmt, done>>
+                  /\ chart' = ImplStep(chart, a) /\ hist' = Append(hist, [op |-> "replace", d |-> d, how |-> how]) /\ UNCHANGED <<nfmt, done>>
                   /\ Judge(a, chart', hist')
 DoReopen == /\ Live /\ REOPEN # "none" /\ NRep >= 1 /\ hist[Len(hist)].op = "replace" /\ hist[Len(hist)].d % RMOD = 0
             /\ LET a == [op |-> "reopen"] IN
